@@ -261,3 +261,22 @@ def _mk_features(n_ports, shape):
 for _n in (0, 1, 2):
   for _s in [(0, 0, 0), (2, 2, 2)]:
     _mk_features(_n, _s)
+
+
+# notifications that arrive DURING the handshake (after the features reply, before connection-up) belong to the port view too:
+# they are deferred and replayed through the default handler once the connection is up.  The C09 units on the handshake's
+# port-status handler are obligations of C17 as well (seeded change C17_8 dropped every such notification when none was
+# deferred yet).
+import contracts.c09_lifecycle as _L9
+
+
+def _mk_early17(n_before):
+  def u(b):
+    return _L9._early(b, n_before)
+  u.__name__ = "a_port_status_during_the_handshake_is_kept_for_replay_%d_before" % n_before
+  u.bound = "0..2 port-status messages deferred before this one"
+  unit(P, target=_L9.OF + "HandshakeOpenFlowHandlers.handle_PORT_STATUS")(u)
+
+
+for _n in (0, 1, 2):
+  _mk_early17(_n)
